@@ -751,8 +751,14 @@ def render_fn(d, log):
     if d.opts.get('arm') and d.opts.get('stmt'):
         # rule R4c: the statement that starts at the anchor text, up to and including its terminating `;` at nesting depth 0
         body_start, body_end = toks[it.open].start, toks[it.close].end
-        pos = src.src.find(d.arm_anchor, body_start, body_end)
-        if pos < 0 or src.src.find(d.arm_anchor, pos + 1, body_end) >= 0:
+        # alternatives separated by ` || `: the first one that occurs exactly once is taken
+        pos = -1
+        for alt in [a.strip() for a in d.arm_anchor.split(' || ')]:
+            q = src.src.find(alt, body_start, body_end)
+            if q >= 0 and src.src.find(alt, q + 1, body_end) < 0:
+                pos = q
+                break
+        if pos < 0:
             raise LostAnchor(f'{d.qual}: statement {d.arm_anchor!r} not found exactly once')
         k = next(i for i, t in enumerate(toks) if t.start >= pos)
         while k < it.close and toks[k].text != ';':
